@@ -35,6 +35,12 @@ Theorem C15_openql_in_order : forall fresh t cid p, ql_wf_tree t = true -> qlc_e
   executed p = ql_image t.
 Proof. exact openql_in_order_documented. Qed.
 
+(* the 12-line repair evaluated for F7 (one kernel, sub-circuits expanded in place; Model.qli_export; not applied): the full
+   statement, with the specified names *)
+Theorem C15_patched_walk_in_order : forall t cid p, ql_wf_tree t = true -> qli_export t cid = Some p ->
+  executed p = ql_image t /\ p = (spec_pname t cid, [QKernel (spec_kname t) (ql_image t)]).
+Proof. exact openql_patched_in_order. Qed.
+
 (* the factory table is the documented one *)
 Theorem C15_table_documented : forall k g, doc_ql_gate k = Some g <-> openql_gate k = Some [KT_gate g QE_ids].
 Proof. exact ql_table_documented. Qed.
@@ -57,6 +63,7 @@ Proof. exact openql_top_names. Qed.
 Print Assumptions C15_partial.
 Print Assumptions C15_refuted.
 Print Assumptions C15_openql_in_order.
+Print Assumptions C15_patched_walk_in_order.
 Print Assumptions C15_table_documented.
 Print Assumptions C15_names_deterministic.
 Print Assumptions C15_top_names.
